@@ -38,6 +38,10 @@ VF = [('open',), ('w', 'x'), ('commit-vote-fail',), ('w', 'y'), ('commit',),
 RXY2 = [('open',), ('r', 'x'), ('abort',), ('r', 'y'), ('close',)]
 
 HARNESSES = {
+    # x's current revision was written by an undo (a record that points
+    # back to older data): the reader follows the pointer while a committer
+    # uses the storage's read/write handle
+    'undone-x:writerY+reader': [WY, R1],
     'vetoed-commit-then-commit+reader': [VF, RXY2],
     'writer2+reader2': [W2, R2],
     'writer+pooluser': [W1, POOL],
@@ -71,6 +75,22 @@ def run_one(cfg, choices):
     sched.install_locks()
     iolog.READS[0] = True
     w = dbworld.DBWorld(cfg['kind'], record=cfg['kind'] != 'M')
+    if cfg['name'].startswith('undone-x'):
+        import transaction
+        from base64 import encodebytes
+        tm0 = transaction.TransactionManager()
+        c0 = w.db.open(tm0)
+        c0.root()['x'].v = 5
+        env.CLOCK.now += 1
+        tm0.commit()
+        env.CLOCK.now += 1
+        w.db.undo(encodebytes(w.storage.lastTransaction()).rstrip(),
+                  tm0.get())
+        tm0.commit()
+        c0.close()
+        # no connection keeps x in its cache
+        w.db.cacheMinimize()
+        env.CLOCK.now += 1
     progs = [dbworld.Prog(w, i, [tuple(s) for s in steps])
              for i, steps in enumerate(HARNESSES[cfg['name']])]
     bodies = [(lambda s, t, p=p: p.run()) for p in progs]
@@ -84,8 +104,13 @@ def run_one(cfg, choices):
         if t is not None and not S.killed:
             S.point(t, 'io')
 
+    shared = getattr(getattr(w.storage, '_file', None), 'raw', None)
+
     def rhook(path, pos, n):
-        if n < 0 or pos + n > base_end:
+        # reads of data written during the run, and every read through the
+        # storage's own read/write handle (only lock holders may use it)
+        if n < 0 or pos + n > base_end or (
+                shared is not None and iolog.LOG.reading_raw is shared):
             t = sched._me()
             if t is not None and not S.killed:
                 S.point(t, 'read')
@@ -279,8 +304,9 @@ def run(rep, tier, seed, workers):
         'preemptions of each 2-3 thread harness (writer, reader with two '
         'transactions, pool user, reader with begin, read-writer) over a '
         'real DB; scheduling points at every controlled lock operation, '
-        'every recorded I/O op and every raw read reaching beyond the '
-        'committed end, plus a line-level pass over mvccadapter, FilePool, '
+        'every recorded I/O op, every raw read reaching beyond the '
+        'committed end and every raw read through the storage\'s own '
+        'read/write handle, plus a line-level pass over mvccadapter, FilePool, '
         'Connection.open/newTransaction and DB._returnToPool; '
         'interleavings: all merges of 2 (3) step programs from a catalogue '
         'of 10; non-trivial = execution in which some reader transaction '
@@ -292,6 +318,8 @@ def run(rep, tier, seed, workers):
             b = bound - 1 if three else bound
             if tier == 'quick' and three and kind == 'M':
                 continue
+            if name.startswith('undone-x') and kind == 'M':
+                continue        # no undo on a MappingStorage
             plan.append(dict(prop='C02', kind=kind, name=name, bound=b))
     # line-level pass
     lb = 1 if tier == 'quick' else 2
